@@ -511,10 +511,9 @@ LrSeed ==      \* plant the sentinel failure, start the first evaluation
   /\ LET best == RuleErr("best", Rep(ctl.st, KSentinel)) IN
      /\ cache' = (<<ctl.ri, ctl.st.p>> :> best) @@ cache
      /\ stack' = ReplTop([Top EXCEPT !.best = best])
-     /\ att' = att \cup {Attempt(ctl.st.p, KSentinel)}
   /\ hist' = Append(hist, [ev |-> "info", r |-> "lrloop", p |-> ctl.st.p])
   /\ StartBody(ctl.ri, ctl.st)
-  /\ UNCHANGED <<gi, txt, depth>>
+  /\ UNCHANGED <<gi, txt, depth, att>>
 
 \* the new result extends the best one strictly (or is the first success): keep it, go round again
 LrGrow ==
@@ -610,10 +609,13 @@ AttMust == {a.p : a \in {x \in att : ~x.la}}
 AttAll  == {a.p : a \in att}
 MaxOf(S) == CHOOSE x \in S : \A y \in S : y <= x
 NoMemoNoLr == \A ri \in 1..NumRules(G) : G.rules[ri].kind = "rule" => ~G.rules[ri].memoize /\ ~G.rules[ri].leftrec
+\* the sentinel planted by LrSeed is not a match attempt (it is not in att); it cannot
+\* surface when left-recursive rules list their recursive alternatives first (G.lrfirst)
 RealFailure == Failed => /\ ctl.err.p \in AttAll
                          /\ ctl.err.p \in Boundaries(txt)
-                         /\ \E a \in att : a.p = ctl.err.p /\ a.k = ctl.err.k
+                         /\ G.lrfirst => \E a \in att : a.p = ctl.err.p /\ a.k = ctl.err.k
                          /\ ctl.err.k.k # "Other"
+NoSentinel == Failed /\ G.lrfirst => ctl.err.k.k # "Sentinel"
 FurthestFail == Failed /\ NoMemoNoLr =>
                   /\ AttMust # {} => MaxOf(AttMust) <= ctl.err.p
                   /\ ctl.err.p <= MaxOf(AttAll)
